@@ -425,6 +425,8 @@ func isNilRef(x value) bool {
 		return x == nil
 	case *ssa.Builtin:
 		return x == nil
+	case *noopCall:
+		return x == nil
 	}
 	panic(fmt.Sprintf("isNilRef: illegal dynamic type: %T", x))
 }
